@@ -69,80 +69,66 @@ func iterationSkips(hdr, must *ssa.BasicBlock, assume func(ssa.Value) int) bool 
 func (c *Check) cutoffIsStrict() {
 	p := c.P
 	n := 0
-	forAllPkgFuncs(p, "internal/graph", func(f *ssa.Function) {
-		var keeps []harvestSite
-		for _, h := range harvestSites(f) {
-			if structName(h.val.Type()) == "graph.Node" {
-				keeps = append(keeps, h)
-			}
-		}
-		if len(keeps) != 1 {
-			return
-		}
-		node := keeps[0].val
-		fromCum := func(v ssa.Value) bool {
-			for i := 0; i < 4; i++ {
-				switch x := v.(type) {
-				case *ssa.Call:
-					if len(x.Call.Args) == 1 && x.Call.StaticCallee() != nil {
-						v = x.Call.Args[0]
-						continue
-					}
-					return false
-				case *ssa.UnOp:
-					if x.Op == token.SUB {
-						v = x.X
-						continue
-					}
-					if x.Op != token.MUL {
-						return false
-					}
-					fa, ok := x.X.(*ssa.FieldAddr)
-					if !ok {
-						return false
-					}
-					T, F := fieldOf(fa.X.Type(), fa.Field)
-					return T == "graph.Node" && F == "Cum" && fa.X == node
-				case *ssa.Phi:
-					// abs written inline: a phi of the value and its negation
-					if len(x.Edges) == 0 {
-						return false
-					}
-					v = x.Edges[0]
+	fromCum := func(v ssa.Value, node ssa.Value) bool {
+		for i := 0; i < 4; i++ {
+			switch x := v.(type) {
+			case *ssa.Call:
+				if len(x.Call.Args) == 1 && x.Call.StaticCallee() != nil {
+					v = x.Call.Args[0]
 					continue
 				}
 				return false
+			case *ssa.UnOp:
+				if x.Op == token.SUB {
+					v = x.X
+					continue
+				}
+				if x.Op != token.MUL {
+					return false
+				}
+				fa, ok := x.X.(*ssa.FieldAddr)
+				if !ok {
+					return false
+				}
+				T, F := fieldOf(fa.X.Type(), fa.Field)
+				return T == "graph.Node" && F == "Cum" && (node == nil || fa.X == node)
+			case *ssa.Phi:
+				// abs written inline: a phi of the value and its negation
+				if len(x.Edges) == 0 {
+					return false
+				}
+				v = x.Edges[0]
+				continue
 			}
 			return false
 		}
-		isCutoffParam := func(v ssa.Value) bool {
-			pr, ok := v.(*ssa.Parameter)
-			if !ok {
-				return false
-			}
-			bt, ok := pr.Type().Underlying().(*types.Basic)
-			return ok && bt.Info()&types.IsInteger != 0
+		return false
+	}
+	isCutoffParam := func(v ssa.Value) bool {
+		pr, ok := v.(*ssa.Parameter)
+		if !ok {
+			return false
 		}
+		bt, ok := pr.Type().Underlying().(*types.Basic)
+		return ok && bt.Info()&types.IsInteger != 0
+	}
+	// the comparisons of f between a node's cum and a cutoff parameter
+	cutoffCmps := func(f *ssa.Function, node ssa.Value) []*ssa.BinOp {
 		var cmps []*ssa.BinOp
 		for _, b := range f.Blocks {
 			for _, ins := range b.Instrs {
 				if cmp, ok := ins.(*ssa.BinOp); ok {
-					if (fromCum(cmp.X) && isCutoffParam(cmp.Y)) || (fromCum(cmp.Y) && isCutoffParam(cmp.X)) {
+					if (fromCum(cmp.X, node) && isCutoffParam(cmp.Y)) || (fromCum(cmp.Y, node) && isCutoffParam(cmp.X)) {
 						cmps = append(cmps, cmp)
 					}
 				}
 			}
 		}
-		if len(cmps) == 0 {
-			return
-		}
-		hdr := loopHeaderAround(keeps[0].ins.Block())
-		if hdr == nil {
-			return
-		}
-		n++
-		key := "cutoff-strict:" + fnName(f)
-		assume := func(cond ssa.Value) int {
+		return cmps
+	}
+	// the outcome of such a comparison when both sides are equal
+	atEquality := func(cmps []*ssa.BinOp) func(ssa.Value) int {
+		return func(cond ssa.Value) int {
 			for _, cmp := range cmps {
 				if cond == ssa.Value(cmp) {
 					switch cmp.Op {
@@ -155,10 +141,87 @@ func (c *Check) cutoffIsStrict() {
 			}
 			return 0
 		}
+	}
+	forAllPkgFuncs(p, "internal/graph", func(f *ssa.Function) {
+		// statements that keep a node: appended to a list, or put into a set
+		type keep struct {
+			ins  ssa.Instruction
+			node ssa.Value
+		}
+		var keeps []keep
+		for _, h := range harvestSites(f) {
+			if structName(h.val.Type()) == "graph.Node" {
+				keeps = append(keeps, keep{h.ins, h.val})
+			}
+		}
+		for _, b := range f.Blocks {
+			for _, ins := range b.Instrs {
+				if mu, ok := ins.(*ssa.MapUpdate); ok && structName(mu.Key.Type()) == "graph.Node" {
+					keeps = append(keeps, keep{mu, mu.Key})
+				}
+			}
+		}
+		if len(keeps) != 1 {
+			return
+		}
+		node := keeps[0].node
+		cmps := cutoffCmps(f, node)
+		// a predicate helper that receives the node and the cutoff
+		helperVerdict := map[*ssa.Call]int{}
+		var firstPos token.Pos
+		for _, b := range f.Blocks {
+			for _, ins := range b.Instrs {
+				call, ok := ins.(*ssa.Call)
+				if !ok {
+					continue
+				}
+				h := helperCallee(f, call)
+				if h == nil || h.Signature.Results().Len() != 1 {
+					continue
+				}
+				if bt, ok := h.Signature.Results().At(0).Type().Underlying().(*types.Basic); !ok || bt.Kind() != types.Bool {
+					continue
+				}
+				passesNode := false
+				for _, a := range call.Call.Args {
+					if a == node {
+						passesNode = true
+					}
+				}
+				hc := cutoffCmps(h, nil)
+				if !passesNode || len(hc) == 0 {
+					continue
+				}
+				helperVerdict[call] = boolResultUnder(h, atEquality(hc))
+				firstPos = hc[0].Pos()
+			}
+		}
+		if len(cmps) == 0 && len(helperVerdict) == 0 {
+			return
+		}
+		if len(cmps) > 0 {
+			firstPos = cmps[0].Pos()
+		}
+		hdr := loopHeaderAround(keeps[0].ins.Block())
+		if hdr == nil {
+			return
+		}
+		n++
+		key := "cutoff-strict:" + fnName(f)
+		base := atEquality(cmps)
+		assume := func(cond ssa.Value) int {
+			if d := base(cond); d != 0 {
+				return d
+			}
+			if call, ok := cond.(*ssa.Call); ok {
+				return helperVerdict[call]
+			}
+			return 0
+		}
 		if iterationSkips(hdr, keeps[0].ins.Block(), assume) {
-			c.bad("C05-R8", key, p.relFile(cmps[0].Pos()), fnName(f)+" drops a node whose |cum| equals the cutoff: the entries removed are no longer exactly those below the cutoff, and with a cutoff of 0 (top-N selection) every entry whose cum cancels to zero is lost although its flat is shown in the untrimmed report")
+			c.bad("C05-R8", key, p.relFile(firstPos), fnName(f)+" drops a node whose |cum| equals the cutoff: the entries removed are no longer exactly those below the cutoff, and with a cutoff of 0 (top-N selection) every entry whose cum cancels to zero is lost although its flat is shown in the untrimmed report")
 		} else {
-			c.ok("C05-R8", key, p.relFile(cmps[0].Pos()), fnName(f)+" keeps a node whose |cum| equals the cutoff", "with Cum compared equal to the cutoff parameter no path through an iteration avoids the statement that keeps the node")
+			c.ok("C05-R8", key, p.relFile(firstPos), fnName(f)+" keeps a node whose |cum| equals the cutoff", "with Cum compared equal to the cutoff parameter no path through an iteration avoids the statement that keeps the node")
 		}
 	})
 	if n == 0 {
